@@ -65,6 +65,9 @@ func (Engine) Describe(prop string) core.Description {
 		d.Probes = []string{"include-repeat", "include-primary-resource", "include-same-id-other-type", "include-on-resources-collection", "include-on-softcollection", "include-on-wrappercollection", "include-on-single-resource", "doc-with-errors", "exotic-names", "primary-member-replaced-between-includes", "earlier-payload-revalidated", "resource-without-id"}
 	}
 
+	d.Rule += "; documents may carry top-level links of their own next to the self link; in a quarter of the runs the schema is reached through a longer edit history (scaffold types added between the real ones and removed again, an attribute added after its type, temporary fields added and removed) with the same final content"
+	d.Probes = append(d.Probes, "schema-built-through-edit-history")
+
 	return d
 }
 
@@ -209,7 +212,15 @@ func runC11(t *core.Tape, st *core.Stats) *core.Violation {
 		err    error
 	)
 
-	if p := core.Call(func() { schema, err = spec.BuildSchema(nil) }); p != nil {
+	viaHistory := false
+
+	defer func() {
+		if viaHistory {
+			st.Inc("probe:schema-built-through-edit-history")
+		}
+	}()
+
+	if p := core.Call(func() { schema, viaHistory, err = spec.BuildSchemaAnyHow(t) }); p != nil {
 		return viol(P, "no-panic", p.Func, "build-schema:"+p.Class, "building the schema panicked: %s", p.Value)
 	}
 
